@@ -12,6 +12,15 @@ use serde_json::json;
 
 pub struct C02;
 
+/// nodes, hyperedges and interfaces equal field for field; pending unification pairs equal as a
+/// multiset of (offset) ordered pairs -- the list order of pending pairs carries no meaning
+fn same_lax_up_to_pair_order(a: &PL, b: &PL) -> bool {
+    let (mut qa, mut qb) = (a.q.clone(), b.q.clone());
+    qa.sort();
+    qb.sort();
+    a.w == b.w && a.e == b.e && a.s == b.s && a.t == b.t && qa == qb
+}
+
 impl C02 {
     fn strict(&self, ctx: &mut Ctx, class: &str, f: &P, g: &P, h: &P) {
         let input = || json!({"f": show(f), "g": show(g), "h": show(h)});
@@ -81,7 +90,7 @@ impl C02 {
             if let Some(t) = r {
                 ctx.count("wf:walked");
                 let got = from_lax_raw(&t);
-                ctx.check(got == want && t.hypergraph.edges.len() == t.hypergraph.adjacency.len(), &format!("{}/juxtaposition/value/{}", api, class), || {
+                ctx.check(same_lax_up_to_pair_order(&got, &want) && t.hypergraph.edges.len() == t.hypergraph.adjacency.len(), &format!("{}/juxtaposition/value/{}", api, class), || {
                     json!({"input": input(), "observed": show_lax(&got), "expected_exactly": show_lax(&want)})
                 });
                 let ty = lib(ctx, "lax::source/target", class, &input, || (Arrow::source(&t), Arrow::target(&t)));
@@ -94,6 +103,17 @@ impl C02 {
                     wt.extend(go.tgt_type());
                     ctx.check(s == ws && tt == wt, &format!("{}/type-is-concatenation/value/{}", api, class), || json!({"input": input(), "observed": format!("{:?}->{:?}", s, tt)}));
                 }
+            }
+        }
+        // the in-place variants build the same juxtaposition
+        {
+            let mut x = lf.clone();
+            let y = lg.clone();
+            if lib(ctx, "lax::tensor_assign", class, &input, || x.tensor_assign(y)).is_some() {
+                let got = from_lax_raw(&x);
+                ctx.check(same_lax_up_to_pair_order(&got, &want), &format!("lax::tensor_assign/juxtaposition/value/{}", class), || {
+                    json!({"input": input(), "observed": show_lax(&got), "expected": show_lax(&want)})
+                });
             }
         }
         let l = lib(ctx, "lax::tensor", class, &input, || lf.tensor(&lg).tensor(&lh));
@@ -122,7 +142,7 @@ impl Monitor for C02 {
     fn rule(&self) -> &'static str {
         "cases: fixed shapes (left/right/both operands empty, zero-arity hyperedges, pending unifications on the right operand) then seeded triples of strict diagrams and of \
          lax diagrams (with pending unification pairs), all size combinations including empty node sets, edge sets and interfaces. Oracle: model juxtaposition computed by loops, \
-         compared field for field (node labels, every incidence list, both interfaces, pending pairs offset by the left node count; segment codomains via the deep walker); result \
+         compared field for field (node labels, every incidence list, both interfaces, pending pairs offset by the left node count, compared as a multiset since their list order carries no meaning; also through the in-place tensor_assign; segment codomains via the deep walker); result \
          type = concatenation read through source()/target(); (f|g)|h == f|(g|h) and f|empty == f == empty|f as raw data. non-trivial = both operands non-empty or a fixed shape; \
          distinct = hash of the triple."
     }
@@ -141,6 +161,7 @@ impl Monitor for C02 {
             ("api:lax::tensor", 500),
             ("api:lax::Monoidal::tensor", 100),
             ("api:lax::bitor", 100),
+            ("api:lax::tensor_assign", 200),
             ("law:unit", 200),
             ("law:lax_unit", 200),
         ]
